@@ -338,6 +338,14 @@ theorem extra_reply_witness :
   refine ⟨by decide, by decide, ?_⟩
   rw [hp]; decide
 
+/-- … and next to a threaded sub-command the same extra reply makes "exactly once" depend on the
+schedule: in `a [b] [c] [d]` with `b` replying twice and `c` threaded there is a schedule under
+which `d` runs twice (both threads resume the line's `evalArgs` and both find `[d]` unevaluated).
+(A statement about the machine; the interleaving cannot be forced on the real threads from outside.) -/
+theorem race_runs_twice :
+    ((run exR exRaceSchedule (initConfig exR exRace false)).log.map (·.path)) = [[1], [2], [3], [3]] := by
+  set_option maxRecDepth 2000 in decide
+
 /-! ### non-vacuity: concrete instances meeting the hypotheses -/
 
 section Examples
